@@ -135,8 +135,8 @@ class Side(object):
     def run_body(self, nid, args, kwargs):
         w = self.w
         w.counts[nid] += 1
-        if sum(w.counts.values()) > 400:
-            raise Abort("program too long")
+        if sum(w.counts.values()) > 100:
+            raise Abort("program too long")      # well below the interpreter's recursion limit (about 4 frames per invocation)
         w.log.append([nid, self.name, [self.w.describe(a, self) for a in args],
                       sorted([k, self.w.describe(v, self)] for k, v in kwargs.items())])
         return self.eval(w.nodes[nid], tuple(args), dict(kwargs), nid)
@@ -267,7 +267,10 @@ def run_world(prog, distributed, config=None):
         w = World(prog, False)
         a, b = Side(w, "A"), Side(w, "B")
         a.other, b.other = b, a
-        return go(w, a), w, None
+        try:
+            return go(w, a), w, False
+        except Abort:
+            return None, w, True
 
     class ProgService(rpyc.Service):
         def __init__(self, side):
@@ -337,7 +340,10 @@ def _arg_stats(a, depth, acc, side):
 def check(case, rec):
     prog = case["prog"]
     stc = prog_stats(prog)
-    ref_out, ref_w, _ = run_world(prog, False)
+    ref_out, ref_w, ref_aborted = run_world(prog, False)
+    if ref_aborted:
+        rec.case(case, False, ["skipped:program-too-long"])
+        return []
     got_out, got_w, aborted = run_world(prog, True, CONFIGS[case["config"]])
     both_dirs = ref_w.stats["cross:A"] > 0 and ref_w.stats["cross:B"] + ref_w.stats["callarg"] > 0
     nontrivial = stc["depth"] >= 2 and both_dirs
